@@ -44,6 +44,8 @@ func main() {
 			return in, runSubReady(in)
 		case 4:
 			return in, runMixed(in)
+		case 5:
+			return runRolesUpdate(base, in)
 		}
 		return base.Run2(sel, in)
 	}
@@ -52,15 +54,25 @@ func main() {
 			lawsMixed(law)
 			return
 		}
-		if sel != 1 {
+		if sel == 5 {
+			in = stripUpdatePrefix(in)
+		} else if sel != 1 {
 			return
 		}
-		sig := ""
-		if f10Pattern(in) {
-			sig = SigF10
-		}
-		base.Laws(sel, in, got, func(lsel int, lin []int64, _ string) {
-			law(lsel, lin, sig)
+		base.Laws(1, in, got, func(lsel int, lin []int64, _ string) {
+			// F10 is attached per JOB and per mechanism: J = the jobs that received a bind while still
+			// holding a never-bound session-Allocated task with a non-empty request, in a cycle with
+			// allocate more than once - judged on THIS execution (statuses and binds read from `got`).
+			// The law is evaluated twice: without J's binds (unsigned: every other violation is
+			// reported) and with J's binds only (selector 111, signed).
+			fj := f10Jobs(in, got)
+			if len(fj) == 0 {
+				law(lsel, lin, "")
+			} else {
+				rest, only := splitBinds(in, got, lin, fj)
+				law(lsel, rest, "")
+				law(111, only, SigF10)
+			}
 			// the guard of bind_only_when_gang_ok along the model's replay of this very execution
 			// (claimed only for action lists with at most one allocate: Entry.law_guard)
 			law(104, lin, "")
@@ -88,29 +100,138 @@ func countAllocate(acts []int64) int {
 	return k
 }
 
-// f10Pattern re-runs the cycle and reports whether it shows the F10 failure class: `allocate`
-// occurs more than once in the action list and a job that received a bind still holds a
-// session-Allocated task with a non-empty request that was never bound (left by a kept statement).
-func f10Pattern(in []int64) bool {
+// parseGot reads the correspondence output of a cycle: the binds of every step and the final
+// status of every task.
+func parseGot(got []int64) (binds []int64, final map[int64]int64) {
+	final = map[int64]int64{}
+	i := 0
+	for i < len(got) && got[i] == -101 {
+		i += 2
+		n := int(got[i])
+		i += 1 + 4*n
+		n = int(got[i])
+		i++
+		for k := 0; k < n; k++ {
+			binds = append(binds, got[i])
+			i += 2
+		}
+		n = int(got[i])
+		i += 1 + n
+	}
+	if i >= len(got) || got[i] != -102 {
+		panic("parseGot: no final section")
+	}
+	i++
+	n := int(got[i])
+	i++
+	for k := 0; k < n; k++ {
+		final[got[i]] = got[i+1]
+		i += 3
+	}
+	return
+}
+
+// f10Jobs: the jobs showing the F10 mechanism in the judged execution.
+func f10Jobs(in, got []int64) map[int64]bool {
 	spec := sched.DecCycleSpec(&sched.Tok{T: in})
+	out := map[int64]bool{}
 	if countAllocate(spec.Actions) < 2 {
-		return false
+		return out
 	}
-	cw := sched.NewCycleWorld(spec)
-	cw.RunActions()
-	boundJob := map[int64]bool{}
-	for _, e := range cw.Trace {
-		if e.Kind == 2 {
-			boundJob[cw.TSpec[e.Task].Job] = true
+	binds, final := parseGot(got)
+	bound := map[int64]bool{}
+	for _, b := range binds {
+		bound[b] = true
+	}
+	hasBind := map[int64]bool{}
+	for _, t := range spec.Tasks {
+		if bound[t.ID] {
+			hasBind[t.Job] = true
 		}
 	}
-	for id, t := range cw.Tasks {
-		ts := cw.TSpec[id]
-		if boundJob[ts.Job] && sched.StatusKey(t.Status) == sched.SAllocated && !t.BestEffort {
-			return true
+	for _, t := range spec.Tasks {
+		be := t.CPU == 0 && t.Mem == 0 && t.GPU == 0
+		if hasBind[t.Job] && final[t.ID] == sched.SAllocated && !be && !bound[t.ID] {
+			out[t.Job] = true
 		}
 	}
-	return false
+	return out
+}
+
+// splitBinds rewrites the bind list at the end of a law input: without the binds of the jobs in fj,
+// and with those binds only.
+func splitBinds(in, got, lin []int64, fj map[int64]bool) (rest, only []int64) {
+	spec := sched.DecCycleSpec(&sched.Tok{T: in})
+	jobOf := map[int64]int64{}
+	for _, t := range spec.Tasks {
+		jobOf[t.ID] = t.Job
+	}
+	binds, _ := parseGot(got)
+	n := len(binds)
+	if len(lin) < n+1 || lin[len(lin)-n-1] != int64(n) {
+		panic("splitBinds: the law input does not end with the bind list")
+	}
+	head := lin[:len(lin)-n-1]
+	var a, b []int64
+	for _, t := range lin[len(lin)-n:] {
+		if fj[jobOf[t]] {
+			b = append(b, t)
+		} else {
+			a = append(a, t)
+		}
+	}
+	rest = append(append(append([]int64{}, head...), int64(len(a))), a...)
+	only = append(append(append([]int64{}, head...), int64(len(b))), b...)
+	return
+}
+
+// ---------- roles family with a PodGroup update before the cycle (selector 5) ----------
+
+// input of selector 5: [k, (role, oldMin) * k] ++ cycle input.  The JobInfo of job 2 is first built with
+// the OLD minTaskMember distribution (same minMember, same number of roles), then the PodGroup is
+// updated (JobInfo.SetPodGroup) to the distribution of the spec; model and laws judge against the
+// CURRENT PodGroup.
+func splitUpdatePrefix(in []int64) (old [][2]int64, rest []int64) {
+	k := int(in[0])
+	for i := 0; i < k; i++ {
+		old = append(old, [2]int64{in[1+2*i], in[2+2*i]})
+	}
+	return old, in[1+2*k:]
+}
+func stripUpdatePrefix(in []int64) []int64 { _, rest := splitUpdatePrefix(in); return rest }
+
+func runRolesUpdate(base vh.Harness, in []int64) ([]int64, []int64) {
+	old, rest := splitUpdatePrefix(in)
+	r := &sched.Tok{T: rest}
+	specNew := sched.DecCycleSpec(r)
+	specOld := specNew
+	specOld.Jobs = append([]sched.JobSpec{}, specNew.Jobs...)
+	var newMin [][2]int64
+	for i := range specOld.Jobs {
+		if specOld.Jobs[i].ID == 2 {
+			newMin = specOld.Jobs[i].RoleMin
+			specOld.Jobs[i].RoleMin = old
+		}
+	}
+	sched.PreOpenHook = func(cw *sched.CycleWorld, snap *api.ClusterInfo) {
+		ji := snap.Jobs[sched.JobID(2)]
+		pg := &api.PodGroup{PodGroup: *ji.PodGroup.PodGroup.DeepCopy()}
+		pg.Spec.MinTaskMember = map[string]int32{}
+		for _, rm := range newMin {
+			pg.Spec.MinTaskMember[sched.RoleName(rm[0])] = int32(rm[1])
+		}
+		ji.SetPodGroup(pg)
+	}
+	defer func() { sched.PreOpenHook = nil }()
+	mIn, got := base.Run2(1, specOld.Enc(sched.EpsUnits))
+	// what follows the spec in the model input (queue limits, reconstructed choices) is kept; the spec
+	// the model sees is the CURRENT one
+	rr := &sched.Tok{T: mIn}
+	_ = sched.DecCycleSpec(rr)
+	out := append([]int64{}, in[:1+2*len(old)]...)
+	out = append(out, specNew.Enc(sched.EpsUnits)...)
+	out = append(out, mIn[rr.I:]...)
+	return out, got
 }
 
 // ---------- F10 directed stream ----------
@@ -172,6 +293,15 @@ func genF10(rng *vh.Rng, n int, emit func(id string, sel int, in []int64, kind s
 			continue
 		}
 		spec := specF10(int64(r.Range(1, 3)), int64(r.Range(0, 2)), int64(r.Range(1, 4))*250)
+		if i%3 == 1 {
+			// a second gang (job 3, minMember 2): one empty-request pod and one pod that fits nowhere: it
+			// must stay unbound; a violation on THIS job must not be covered by the F10 signature of job 2
+			spec.Jobs = append(spec.Jobs, sched.JobSpec{ID: 3, Queue: 1, Min: 2})
+			spec.PGPhase[3] = 2
+			spec.Tasks = append(spec.Tasks,
+				sched.TaskSpec{ID: 20, Job: 3, Role: 1, Prio: 0, Status: sched.SPending},
+				sched.TaskSpec{ID: 21, Job: 3, Role: 1, Prio: 0, CPU: 64000, Status: sched.SPending})
+		}
 		acts := vh.Pick(r, [][]int64{{1, 1}, {1, 1}, {1, 2, 1}, {1}, {1, 2}})
 		if i < 2 {
 			acts = [][]int64{{1, 1}, {1, 2, 1}}[i]
@@ -280,6 +410,31 @@ func genRoles(rng *vh.Rng, n int, emit func(id string, sel int, in []int64, kind
 		r := rng.Fork()
 		variant := i % 5
 		spec := specRoles(r, variant)
+		if i%2 == 1 {
+			// PodGroup update before the cycle: the OLD distribution gives the short role(s) minimum 0 and
+			// the long role the sum (same minMember, same number of roles)
+			var old [][2]int64
+			sum := int64(0)
+			for _, rm := range spec.Jobs[1].RoleMin {
+				sum += rm[1]
+			}
+			for k, rm := range spec.Jobs[1].RoleMin {
+				if k == 0 {
+					old = append(old, [2]int64{rm[0], sum})
+				} else {
+					old = append(old, [2]int64{rm[0], 0})
+				}
+			}
+			in := []int64{int64(len(old))}
+			for _, o := range old {
+				in = append(in, o[0], o[1])
+			}
+			in = append(in, spec.Enc(sched.EpsUnits)...)
+			emit(fmt.Sprintf("roles-%d", i), 5, in, fmt.Sprintf("roles/pg-update/%s/actions=%v", names[variant], spec.Actions), true,
+				map[string]any{"directed": "PodGroup update (minTaskMember redistributed) then short role only pipelined: " + names[variant],
+					"min": spec.Jobs[1].Min, "roleMin": spec.Jobs[1].RoleMin, "oldRoleMin": old})
+			continue
+		}
 		emit(fmt.Sprintf("roles-%d", i), 1, spec.Enc(sched.EpsUnits), fmt.Sprintf("roles/%s/actions=%v", names[variant], spec.Actions), true,
 			map[string]any{"directed": "short role only pipelined: " + names[variant], "min": spec.Jobs[1].Min, "roleMin": spec.Jobs[1].RoleMin,
 				"tasks": len(spec.Tasks), "nodes": len(spec.Nodes)})
